@@ -245,6 +245,9 @@ class Check:
         self.corr['programs'] += len(cases)
         bad = []
         for c, a, b in zip(cases, impl_out, model_out):
+            if b == 'exc Unsupported':      # input outside the model's stated domain: no claim, counted
+                self.corr['outside_model_domain'] = self.corr.get('outside_model_domain', 0) + 1
+                continue
             if a != b:
                 bad.append({'correspondence': name, 'case': show(c) if show else c, 'impl': a, 'model': b})
         self.corr['disagreements'].extend(bad[:50])
@@ -312,6 +315,7 @@ class Check:
             'programs': self.corr['programs'],
             'disagreements_checked': self.corr['programs'],
             'disagreements_found': self.corr.get('n_disagreements', 0),
+            'outside_model_domain': self.corr.get('outside_model_domain', 0),
             'evaluations': self.evals, 'distinct_nontrivial': len(self.nontrivial), 'rule': self.rule,
             'samples': self.samples[:12], 'exhaustive': self.exhaustive,
             'distribution': self.dist,
